@@ -127,8 +127,8 @@ def render_lines(model, corruption=None):
             elif k == 'row-add-col':
                 toks.insert(c['pos'], c['token'])
                 seps.insert(0, ' ')
-            elif k in ('row-text', 'row-date', 'row-time'):
-                col = {'row-date': 1, 'row-time': 2}.get(k, c.get('col'))
+            elif k in ('row-text', 'row-date', 'row-time', 'row-utim-overlong'):
+                col = {'row-date': 1, 'row-time': 2, 'row-utim-overlong': 0}.get(k, c.get('col'))
                 toks[col] = c['token']
             else:
                 raise DatModelError('corruption %r' % (c,))
@@ -340,7 +340,7 @@ def dat_corruptions(draw, model):
     nrows = len(model['rows'])
     kinds = ['header-rename', 'header-dup-replace', 'header-dup-insert']
     if nrows:
-        kinds += ['row-drop-col', 'row-add-col', 'row-text', 'row-date', 'row-time'] * 2
+        kinds += ['row-drop-col', 'row-add-col', 'row-text', 'row-date', 'row-time'] * 2 + ['row-utim-overlong']
     kind = draw(st.sampled_from(kinds))
     c = {'kind': kind}
     if kind == 'header-rename':
@@ -371,6 +371,10 @@ def dat_corruptions(draw, model):
         elif kind == 'row-add-col':
             c['pos'] = draw(st.integers(0, len(header)))
             c['token'] = draw(st.one_of(number_tokens(), st.sampled_from(['0', '0.0', 'x'])))
+        elif kind == 'row-utim-overlong':
+            # digits only, but far beyond any time that a date/time object can hold (year 9999 = 253402300799 s): e.g.
+            # two numbers that ran together.  Such a line cannot be "the corresponding date/time object".
+            c['token'] = str(draw(st.integers(1, 9))) + ''.join(str(draw(st.integers(0, 9))) for _ in range(draw(st.integers(12, 30))))
         elif kind == 'row-text':
             c['col'] = draw(st.one_of(st.just(0), st.integers(3, len(header) - 1)))
             c['token'] = draw(st.sampled_from(NON_NUMERIC_TEXT))
